@@ -1034,6 +1034,7 @@ void add_tool_space(mc::Runner &R, const std::string &name, std::vector<int> fil
 // directly follow the text header of a binary PLY, and the first vertex of an
 // STL facet). A header/record parser that treats some byte value specially
 // (0x0A, 0x0D, 0x20, 0x00 ...) shows up here.
+void binary_roundtrip(int kind, const mcg::GeomDef &g, mc::Ctx &ctx, const std::string &label);
 void run_byte_value_case(uint64_t idx, mc::Ctx &ctx, std::string *desc) {
   // idx -> (format/geometry kind k in 0..2, field f in 0..26, byte value b)
   const int b = idx % 256;
@@ -1077,6 +1078,11 @@ void run_byte_value_case(uint64_t idx, mc::Ctx &ctx, std::string *desc) {
     return;
   }
   if (kind == 2 && f >= 12) return;  // STL carries positions only
+  ctx.count("byte_value_roundtrips");
+  binary_roundtrip(kind, g, ctx, "byte-values");
+}
+// Writes |g| as binary PLY (kind 0 mesh, 1 cloud) or STL (kind 2) and reads it back; bit-exact comparison of the value tuples.
+void binary_roundtrip(int kind, const mcg::GeomDef &g, mc::Ctx &ctx, const std::string &label) {
   std::unique_ptr<Mesh> m;
   std::unique_ptr<PointCloud> pc;
   if (g.is_mesh) m = mcg::build_mesh(g);
@@ -1090,10 +1096,9 @@ void run_byte_value_case(uint64_t idx, mc::Ctx &ctx, std::string *desc) {
     PlyEncoder e;
     ok = g.is_mesh ? e.EncodeToBuffer(*m, &out) : e.EncodeToBuffer(*pc, &out);
   }
-  ctx.count("byte_value_roundtrips");
   const std::string tag = kind == 2 ? "stl" : "ply";
   if (!ok) {
-    ctx.fail(tag + ":byte-values:encoder-refused", mcg::text(g));
+    ctx.fail(tag + ":" + label + ":encoder-refused", mcg::text(g));
     return;
   }
   DecoderBuffer in;
@@ -1103,7 +1108,7 @@ void run_byte_value_case(uint64_t idx, mc::Ctx &ctx, std::string *desc) {
     StlDecoder d;
     auto r = d.DecodeFromBuffer(&in);
     if (!r.ok()) {
-      ctx.fail("stl:byte-values:own-output-rejected", r.status().error_msg_string() + " :: " + mcg::text(g));
+      ctx.fail("stl:" + label + ":own-output-rejected", r.status().error_msg_string() + " :: " + mcg::text(g));
       return;
     }
     // STL stores a soup (plus facet normals): compare the position triangles only
@@ -1120,7 +1125,7 @@ void run_byte_value_case(uint64_t idx, mc::Ctx &ctx, std::string *desc) {
       }
       return t;
     };
-    if (mcg::multiset_of(pos_tris(*r.value())) != mcg::multiset_of(pos_tris(*m))) ctx.fail("stl:byte-values:position-triangles-changed", mcg::text(g));
+    if (mcg::multiset_of(pos_tris(*r.value())) != mcg::multiset_of(pos_tris(*m))) ctx.fail("stl:" + label + ":position-triangles-changed", mcg::text(g));
     return;
   }
   PlyDecoder d;
@@ -1128,13 +1133,13 @@ void run_byte_value_case(uint64_t idx, mc::Ctx &ctx, std::string *desc) {
   PointCloud dp;
   Status st = g.is_mesh ? d.DecodeFromBuffer(&in, &dm) : d.DecodeFromBuffer(&in, &dp);
   if (!st.ok()) {
-    ctx.fail("ply:byte-values:own-output-rejected", st.error_msg_string() + " :: " + mcg::text(g));
+    ctx.fail("ply:" + label + ":own-output-rejected", st.error_msg_string() + " :: " + mcg::text(g));
     return;
   }
   got = g.is_mesh ? mcg::ref_of(dm, &dm) : mcg::ref_of(dp, nullptr);
   // attribute ids may differ after a file round trip: compare the value tuples (positions, normals, colours in this order)
   const bool same = g.is_mesh ? mcg::multiset_of(got.tris) == mcg::multiset_of(want.tris) : mcg::multiset_of(got.points) == mcg::multiset_of(want.points);
-  if (!same) ctx.fail("ply:byte-values:geometry-changed", mcg::text(g));
+  if (!same) ctx.fail("ply:" + label + ":geometry-changed", mcg::text(g));
 }
 void add_byte_value_space(mc::Runner &R) {
   mc::Space s;
@@ -1148,6 +1153,60 @@ void add_byte_value_space(mc::Runner &R) {
     std::string d;
     mc::Ctx dummy;
     run_byte_value_case(idx, dummy, &d);
+    return d;
+  };
+  R.add(s);
+}
+
+// Values that differ only in the sign of a zero component (and values equal up to that sign in SEVERAL components): the readers
+// deduplicate attribute values after loading, and "bit-exactly" includes the sign bit of a zero. Two triangles (0,1,2)(2,1,3) or
+// four points; every assignment of the 4 points to a pool of 7 position vectors x 3 normal shifts x {PLY mesh, PLY cloud, STL}.
+void run_zero_twin_case(uint64_t idx, mc::Ctx &ctx, std::string *desc) {
+  static const float P[7][3] = {{0.f, 2.5f, 0.25f}, {-0.f, 2.5f, 0.25f}, {1.f, 0.f, 3.f}, {1.f, -0.f, 3.f}, {0.f, 0.f, 0.f}, {-0.f, -0.f, -0.f}, {7.f, -7.f, 1e-6f}};
+  static const float N[4][3] = {{0.f, 0.f, 1.f}, {-0.f, 0.f, 1.f}, {0.f, -0.f, 1.f}, {0.f, 1.f, 0.f}};
+  const int kind = idx % 3;
+  const int shift = (idx / 3) % 3;
+  uint64_t a = idx / 9;
+  mcg::GeomDef g;
+  g.is_mesh = kind != 1;
+  g.num_points = 4;
+  if (g.is_mesh) g.faces = {{0, 1, 2}, {2, 1, 3}};
+  mcg::AttDef pos, nrm, col;
+  pos.type = GeometryAttribute::POSITION; pos.dt = DT_FLOAT32; pos.nc = 3; pos.uid = 0;
+  nrm.type = GeometryAttribute::NORMAL; nrm.dt = DT_FLOAT32; nrm.nc = 3; nrm.uid = 1;
+  col.type = GeometryAttribute::COLOR; col.dt = DT_UINT8; col.nc = 3; col.uid = 2;
+  for (int p = 0; p < 4; ++p) {
+    const int v = a % 7;
+    a /= 7;
+    pos.entries.push_back(mcg::bytes_of(std::vector<float>{P[v][0], P[v][1], P[v][2]}));
+    const int n = (p + shift) % 4;
+    nrm.entries.push_back(mcg::bytes_of(std::vector<float>{N[n][0], N[n][1], N[n][2]}));
+    col.entries.push_back(mcg::bytes_of(std::vector<uint8_t>{(uint8_t)(10 + p), 20, 30}));
+  }
+  g.atts = {pos};
+  if (kind != 2) {
+    g.atts.push_back(nrm);
+    g.atts.push_back(col);
+  }
+  if (desc) {
+    *desc = std::string(kind == 0 ? "PLY mesh" : kind == 1 ? "PLY cloud" : "STL mesh") + ", zero-sign twins: " + mcg::text(g);
+    return;
+  }
+  ctx.count("zero_sign_twin_roundtrips");
+  binary_roundtrip(kind, g, ctx, "zero-sign-twins");
+}
+void add_zero_twin_space(mc::Runner &R) {
+  mc::Space s;
+  s.name = "zero_sign_twins";
+  s.size = 9 * 7 * 7 * 7 * 7;
+  s.run = [](uint64_t idx, mc::Ctx &ctx) {
+    run_zero_twin_case(idx, ctx, nullptr);
+    ctx.nontrivial_unique();
+  };
+  s.describe = [](uint64_t idx) {
+    std::string d;
+    mc::Ctx dummy;
+    run_zero_twin_case(idx, dummy, &d);
     return d;
   };
   R.add(s);
@@ -1199,6 +1258,7 @@ int main(int argc, char **argv) {
   for (int F = 1; F <= 2; ++F) add_seam_space(R, F, 4, 3, kRaw, false, true);
   for (int N = 1; N <= 3; ++N) add_cloud_space(R, N);
   add_byte_value_space(R);
+  add_zero_twin_space(R);
   {
     std::vector<int> all;
     for (int i = 0; i < (int)tool_files().size(); ++i) all.push_back(i);
